@@ -32,7 +32,7 @@ def run(tier, seed, scale):
     ]
     run_phases(chk, phases, seed, scale)
     s, h = chk.stats, chk.hooks
-    for fam, key, need in (("group", "group.waiter_really_slept", 100), ("cbq", "cbq.sleeps", 1000), ("execute", "execute.callers_slept_waiting_for_a_slot", 1000), ("execute_recall", "execute_recall.callers_slept_waiting_for_a_slot", 300),
+    for fam, key, need in (("group", "group.waiter_really_slept", 100), ("cbq", "cbq.sleeps", 1000), ("execute", "execute.callers_slept_waiting_for_a_slot", 1000), ("execute_recall", "execute_recall.callers_slept_waiting_for_a_slot", 300), ("execute_handover", "execute_handover.scenarios_with_two_sleepers_queued", 300),
                            ("enqueue", "enqueue.tasks_run_by_another_thread", 1000), ("enqueue(>32 slots)", "enqueue.scenarios_with_an_arena_of_more_than_32_slots", 100), ("resume", "resume.waiter_really_slept", 100), ("mutex", "mutex.mutex.sleeps", 300)):
         chk.require(s.get(key, 0) >= need * (1 if q else 5) * min(1.0, scale), "family %s: only %d real sleeps/hand-offs observed (%s)" % (fam, s.get(key, 0), key))
     chk.extra["sleeps"] = {k: v for k, v in s.items() if "sleep" in k or "slept" in k or "another_thread" in k}
